@@ -10,6 +10,7 @@ import (
 	"sort"
 	"strings"
 	"sync"
+	"time"
 
 	"cuelabs.dev/go/oci/ociregistry/ociauth"
 
@@ -504,6 +505,44 @@ func c19Docs(thorough bool) (orderDocs, precDocs []c19Doc) {
 	return
 }
 
+// c19SamePath: a file that is replaced in place by another document - also one of the same length and the
+// same modification time (cp -p, rsync -t, mounted secrets, coarse timestamps) - is a different input:
+// every load reads what the file holds now.
+func c19SamePath(r *vcore.Run) (n int64) {
+	dir := filepath.Join(vcore.Root, ".work", "c19", fmt.Sprint(os.Getpid()), "samepath")
+	c19DirSeq.Lock()
+	defer c19DirSeq.Unlock()
+	os.MkdirAll(dir, 0o755)
+	defer os.RemoveAll(dir)
+	path := filepath.Join(dir, "config.json")
+	stamp := time.Unix(1700000000, 0)
+	docs := []c19Doc{
+		{Entries: []c19Entry{{Key: "h", Kind: "userpass", ID: "1"}}, Lookups: []string{"h", "g"}},
+		{Entries: []c19Entry{{Key: "h", Kind: "userpass", ID: "2"}}, Lookups: []string{"h", "g"}},
+		{Entries: []c19Entry{{Key: "g", Kind: "userpass", ID: "3"}}, Lookups: []string{"h", "g"}},
+		{Entries: []c19Entry{{Key: "h", Kind: "userpass", ID: "1"}}, Lookups: []string{"h", "g"}},
+	}
+	for _, fixTime := range []bool{true, false} {
+		for round := 0; round < 2; round++ {
+			for i, d := range docs {
+				n++
+				data := d.fileJSON()
+				os.WriteFile(path, data, 0o600)
+				if fixTime {
+					os.Chtimes(path, stamp, stamp)
+				}
+				got, _ := c19Load(d, dir)
+				if want := d.wantResult(); got.String() != want.String() {
+					r.Violate("doc", "C19/same-path-new-contents/stale-result", map[string]any{"document": i, "round": round, "same_mtime": fixTime, "bytes": len(data)},
+						want.String(), got.String())
+					return
+				}
+			}
+		}
+	}
+	return n
+}
+
 func c19Check(r *vcore.Run) vcore.Coverage {
 	// instrumentation probe: a two-key document must produce more than one iteration order
 	probe := c19Doc{Entries: []c19Entry{{Key: "h", Kind: "userpass", ID: "1"}, {Key: "g", Kind: "userpass", ID: "2"}}, Lookups: []string{"h"}}
@@ -523,6 +562,7 @@ func c19Check(r *vcore.Run) vcore.Coverage {
 			c19LookupOrder(r, d)
 		}
 	}
+	execs += c19SamePath(r)
 	r.Sample("order-document", orderDocs[len(orderDocs)/2])
 	r.Sample("precedence-document", precDocs[len(precDocs)/2])
 	r.Notes["documents_all_orders"] = len(orderDocs)
